@@ -100,7 +100,7 @@ var c18HeldAlphabet = []c18Op{
 	{"replace", "l=b", `{"l":[{"k":"b","v":1}]}`},
 }
 
-var c18Stores = []string{"ref", "reflect-map", "node-map", "reflect-slice", "node-slice", "reflect-struct", "node-struct", "reflect-structmap", "node-structmap", "reflect-structval"}
+var c18Stores = []string{"ref", "reflect-map", "node-map", "reflect-slice", "node-slice", "reflect-struct", "node-struct", "reflect-structmap", "node-structmap", "reflect-structval", "node-structembed", "reflect-structembed"}
 
 func (p *c18) Bounds(tier string) map[string]interface{} {
 	d := 3
